@@ -20,8 +20,8 @@ PROPS = {
                              "cross-thread-free", "thread-exit", "diag-concurrent", "slab-growth", "diag-during-growth", "gate-reached"],
         "assumptions": _A,
         "runs": {
-            "quick": [{"config": "plain", "shards": 16, "args": {"n": 192, "gates": 16}}, {"config": "tsan", "shards": 16, "args": {"n": 48, "gates": 16, "scale": 40}},
-                      {"config": "asan", "shards": 16, "args": {"n": 64, "gates": 16, "scale": 60}}],
+            "quick": [{"config": "plain", "shards": 16, "args": {"n": 576, "gates": 32}}, {"config": "tsan", "shards": 16, "args": {"n": 144, "gates": 32, "scale": 40}},
+                      {"config": "asan", "shards": 16, "args": {"n": 192, "gates": 32, "scale": 60}}],
             "thorough": [{"config": "plain", "shards": 16, "seeds": 2}, {"config": "tsan", "shards": 16, "args": {"n": 1200, "gates": 64, "scale": 40}},
                          {"config": "asan", "shards": 16, "args": {"n": 1200, "gates": 64, "scale": 60}}],
         },
@@ -37,8 +37,8 @@ PROPS = {
                              "destroyed-with-live-chunks", "multi-slab", "cross-thread-free"],
         "assumptions": _A,
         "runs": {
-            "quick": [{"config": "plain", "shards": 16, "args": {"n": 480}}, {"config": "tsan", "shards": 16, "args": {"n": 128, "scale": 40}},
-                      {"config": "asan", "shards": 16, "args": {"n": 192, "scale": 60}}],
+            "quick": [{"config": "plain", "shards": 16, "args": {"n": 1440}}, {"config": "tsan", "shards": 16, "args": {"n": 384, "scale": 40}},
+                      {"config": "asan", "shards": 16, "args": {"n": 576, "scale": 60}}],
             "thorough": [{"config": "plain", "shards": 16, "seeds": 2}, {"config": "tsan", "shards": 16, "args": {"n": 2000, "scale": 40}},
                          {"config": "asan", "shards": 16, "args": {"n": 3000, "scale": 60}}],
         },
